@@ -144,6 +144,12 @@ func (e *SeqArrowExpr) Eval(ctx context.Context, local Scope) (_ Value, err erro
 			if err != nil {
 				return nil, WrapContextErr(err, e, local)
 			}
+			if attr == StringCharAttr || attr == BytesByteAttr {
+				if _, isNumber := newItem.(Number); !isNumber {
+					return nil, WrapContextErr(fmt.Errorf(
+						"%s on %s must produce numbers, not %s", e.op, attr, ValueTypeAsString(newItem)), e, local)
+				}
+			}
 			b.Add(NewTuple(Attr{"@", at}, Attr{attr, newItem}))
 		}
 		s, err := b.Finish()
